@@ -18,6 +18,11 @@ def run(ctx):
     R.r2_value_equality(ctx, closure)
     R.r3_interruption_points(ctx)
     R.r5_no_global_state(ctx)
+    # state rewritten in place by a specification check (which runs between packets, i.e. at
+    # every possible interruption point) must be loss-free
+    from ..engines import labelkind as LK
+    LK.k6_one_way_table(ctx, LK.Kinds(ctx.P))
+    ctx.floor("K6", 2)
     ctx.floor("R1", 13)
     ctx.floor("R2", 13)
     ctx.floor("R3", 4)
